@@ -338,6 +338,16 @@ theorem pack_lt_iff (k k' : Kind) (r r' v v' : BitVec 64)
       · have := heq k k' e; omega
     exact_mod_cast this
 
+/-- the comparison functions of the provided sorts, as they stand in the source: element and id lists compare the
+    packed identifier with `<`; the per-kind lists compare id, then version -/
+theorem sort_less_functions :
+    less_elementsSort = ["return es[i].ElementID() < es[j].ElementID()"] ∧
+    less_elementIDsSort = ["return ids[i] < ids[j]"] ∧ less_featureIDsSort = ["return ids[i] < ids[j]"] ∧
+    less_nodesSort = ["if ns[i].ID == ns[j].ID {", "return ns[i].Version < ns[j].Version", "}", "return ns[i].ID < ns[j].ID"] ∧
+    less_waysSort = ["if ws[i].ID == ws[j].ID {", "return ws[i].Version < ws[j].Version", "}", "return ws[i].ID < ws[j].ID"] ∧
+    less_relationsSort = ["if rs[i].ID == rs[j].ID {", "return rs[i].Version < rs[j].Version", "}", "return rs[i].ID < rs[j].ID"] := by
+  decide
+
 /-- A list sorted by the integer value (what `Elements.Sort`, `ElementIDs.Sort`, `FeatureIDs.Sort`
     establish through `sort.Sort` with `Less = <`) is sorted by (type, id, version). -/
 theorem int_sorted_is_type_id_version_sorted
